@@ -291,6 +291,46 @@ pub fn parse_file_internal(context: &ParseContext) -> Result<(), Error> {
     Ok(())
 }
 
+/// Grammar parser is recursive: every opened parenthesis and every unary
+/// operator costs a piece of the stack, so limit how deep a line may nest
+const MAX_NESTING: usize = 256;
+
+fn nesting_depth(line: &str) -> usize {
+    let mut depth = 0usize;
+    let mut unary_run = 0usize;
+    let mut max = 0usize;
+    let mut previous = ' ';
+    for c in line.chars() {
+        match c {
+            ';' => break,
+            '/' if previous == '/' => break,
+            '(' => {
+                depth += 1;
+                unary_run = 0;
+            }
+            ')' => {
+                depth = depth.saturating_sub(1);
+                unary_run = 0;
+            }
+            '-' | '!' | '~' => unary_run += 1,
+            ' ' | '\t' => {}
+            _ => unary_run = 0,
+        }
+        max = max.max(depth + unary_run);
+        previous = c;
+    }
+    max
+}
+
+/// Parse line if it isn't nested too deep for the parser
+fn parse_line(line: &str) -> Option<Result<Document, peg::error::ParseError<peg::str::LineCol>>> {
+    if nesting_depth(line) > MAX_NESTING {
+        None
+    } else {
+        Some(document::line(line))
+    }
+}
+
 #[derive(Clone, Copy, PartialEq, Eq, Debug)]
 pub enum NextItem {
     NewLine,
@@ -319,7 +359,7 @@ fn skip<'a>(
                 let name = context.macros.name.borrow().clone();
                 let mut items = vec![];
                 while let Some((line_num, line)) = iter.next() {
-                    if let Ok(item) = document::line(line) {
+                    if let Some(Ok(item)) = parse_line(line) {
                         if let Document::DirectiveLine(_, directive, _) = item {
                             if other == NextItem::EndMacro && directive == Directive::EndMacro
                                 || directive == Directive::EndM
@@ -334,7 +374,7 @@ fn skip<'a>(
                 context.macros.macroses.borrow_mut().insert(name, items);
             } else {
                 while let Some((num, line)) = iter.next() {
-                    if let Ok(item) = document::line(line) {
+                    if let Some(Ok(item)) = parse_line(line) {
                         if let Document::DirectiveLine(_, directive, _) = item {
                             if other == NextItem::EndIf || other == NextItem::EndIfBlock {
                                 if directive == Directive::If
@@ -395,7 +435,13 @@ pub fn parse_iter<'a>(
         if let Some((line_num, line)) = next_line {
             next_item = NextItem::NewLine; // clear conditional flag to typical state
             let line_num = line_num + 1;
-            let parsed_item = document::line(line);
+            let parsed_item = match parse_line(line) {
+                Some(parsed_item) => parsed_item,
+                None => bail!(
+                    "expression is nested too deep in {}",
+                    CodePoint { line_num, num: 1 }
+                ),
+            };
             if let Ok(item) = parsed_item {
                 match item {
                     Document::Label(name) => {
